@@ -18,7 +18,8 @@ def who(request, encoding='utf-8'):
     ip = request.remote.ip
     agent = request.headers.get('User-Agent', '')
 
-    return sha(f'{ip}{agent}'.encode(encoding)).hexdigest()
+    # an address never contains '|': distinct (address, agent) pairs stay distinct
+    return sha(f'{ip}|{agent}'.encode(encoding)).hexdigest()
 
 
 def create_session(request):
